@@ -4,8 +4,8 @@
 # usage: tools_seedverify.sh <seed dir with patch.diff demo.rs meta.json> <name>
 set -u
 SD=$(readlink -f "$1"); NAME=$2
-W=/tmp/seedverify/repo
-if [ ! -d $W ]; then mkdir -p /tmp/seedverify; git -C /repo worktree add -q --detach $W HEAD || exit 2; fi
+W=${SEEDVERIFY_W:-/tmp/seedverify/repo}
+if [ ! -d $W ]; then mkdir -p $(dirname $W); git -C /repo worktree add -q --detach $W HEAD || exit 2; fi
 git -C $W checkout -q --detach $(git -C /repo rev-parse HEAD); git -C $W checkout -q -- .; rm -f $W/tests/seed_demo.rs
 mkdir -p $W/tests; cp $SD/demo.rs $W/tests/seed_demo.rs
 cd $W
